@@ -9,7 +9,7 @@ def I(fn, tiers, bounds, lemma, **kw):
 
 
 PROP = {
-    "manifest": {'text': 'PARTIAL (volume chain only). Bounded model checking of the real SeekableChain::{new,read,seek} against a one-cursor reference over the concatenation: for ALL byte values, ALL splits into 1..4 volumes (incl. empty ones) of <= 8 bytes and ALL sequences of <= 3 (thorough 5) read(n<=4)/seek(Start|Current|End, any offset) operations the solver shows: no early EOF, bytes equal the concatenation, seek returns the position reads continue from, no panic. NOT covered: unzip.rs extraction, confinement, glob matching (zip crate + file system: not encodable).', 'note': "rustc front end, kani-compiler MIR->goto translation, CBMC 6.11 + cadical, Kani's allocation/slice models; stubs and textual cuts listed in the evidence; volumes modelled as std::io::Cursor<&[u8]> (no I/O errors); clamped or file-style position beyond the end both accepted.", 'technique': 'bounded model checking of the real code (Kani/CBMC, SAT): differential harness vs reference cursor, symbolic data/splits/operation sequence'},
+    "manifest": {'text': 'PARTIAL (volume chain only). Bounded model checking of the real SeekableChain::{new,read,seek} against a one-cursor reference over the concatenation: for ALL byte values, ALL splits into 1..4 volumes (incl. empty ones) of <= 8 bytes and ALL sequences of <= 3 (thorough 5) read(n<=4)/seek(Start|Current|End, any offset) operations the solver shows: no early EOF, bytes equal the concatenation, seek returns the position reads continue from, no panic; plus seek-then-drain and drain / seek back anywhere / drain again (state left by an earlier pass) deliver exactly the rest. NOT covered: unzip.rs extraction, confinement, glob matching (zip crate + file system: not encodable).', 'note': "rustc front end, kani-compiler MIR->goto translation, CBMC 6.11 + cadical, Kani's allocation/slice models; stubs and textual cuts listed in the evidence; volumes modelled as std::io::Cursor<&[u8]> (no I/O errors); clamped or file-style position beyond the end both accepted.", 'technique': 'bounded model checking of the real code (Kani/CBMC, SAT): differential harness vs reference cursor, symbolic data/splits/operation sequence'},
     "inject": [(OWNER, FILE + ".rs")],
     "functions": ["utils::seekablechain::SeekableChain::{new, read, seek, seek_abs}", "HasLength::len",
                   "std::io::Cursor<&[u8]> as the volume type"],
